@@ -770,6 +770,10 @@ def judge_ks(label, atoms, xyz32, res, a, bnd, stats, recs, top=None):
                 continue
             if res[j]["name"] == "PRO":
                 stats["ks_pairs"] += 1
+                wb = int(np.nansum((E[:, j] < hr.KS_CUTOFF - tolE[:, j]) & (ca[:, j] < hr.KS_CA_PREFILTER)))
+                if wb:
+                    nj["(judged) proline donors whose geometry would give E<-0.5: must be absent"] = nj.get(
+                        "(judged) proline donors whose geometry would give E<-0.5: must be absent", 0) + 1
                 if col_got:
                     rec("kabsch_sander|extra|proline-donor", "proline residue %d reported as N-H donor: %s" % (j, col_got))
                 continue
@@ -900,9 +904,8 @@ def ks_sentinel(kinds, sentinel):
     return md.kabsch_sander(t)[0].toarray(), shared
 
 
-def ks_asan(ctx_repo, kinds, scratch):
-    """(status, text): status 'ok' | 'asan' | 'unavailable' | 'error'."""
-    import json
+def ks_asan_lib(ctx_repo):
+    """(so, libasan) or (None, reason); built once, before any thread is started."""
     import os
     import subprocess
     from vlib import build
@@ -910,9 +913,20 @@ def ks_asan(ctx_repo, kinds, scratch):
         so = build.build_kernlib("hbseam", ctx_repo, "asan")
         libasan = subprocess.run(["gcc", "-print-file-name=libasan.so"], stdout=subprocess.PIPE, text=True).stdout.strip()
     except Exception as e:  # noqa: BLE001
-        return "unavailable", str(e)[-300:]
+        return None, str(e)[-300:]
     if not os.path.isabs(libasan) or not os.path.exists(libasan):
-        return "unavailable", "libasan.so not found"
+        return None, "libasan.so not found"
+    return so, libasan
+
+
+def ks_asan(lib, kinds, scratch):
+    """(status, text): status 'ok' | 'asan' | 'unavailable' | 'error'."""
+    import json
+    import os
+    import subprocess
+    so, libasan = lib
+    if so is None:
+        return "unavailable", libasan
     _atoms, xyz, nco, ca = _mem_case(kinds)
     cf = os.path.join(scratch, "kscase-%s.json" % kinds)
     with open(cf, "w") as fh:
@@ -951,8 +965,9 @@ def run_memory_family(ctx_repo, scratch, only=None):
                          "residue list %s (%s): the result changes with the 3 floats stored in front of the coordinate array: "
                          "%s vs %s" % (kinds, name, a[a != 0].round(4).tolist(), b[b != 0].round(4).tolist()),
                          dict(family="ks-mem", case=name, sig="kabsch_sander|depends-on-memory-before-xyz|%s" % (cls or name))))
+    lib = ks_asan_lib(ctx_repo)
     with ThreadPoolExecutor(6) as ex:
-        outs = list(ex.map(lambda c: ks_asan(ctx_repo, c[1], scratch), cases))
+        outs = list(ex.map(lambda c: ks_asan(lib, c[1], scratch), cases))
     for (name, kinds, cls), (status, text) in zip(cases, outs):
         if status == "unavailable":
             counts["asan_available"] = False
